@@ -259,7 +259,11 @@ def run_batch(seed, batch, tier):
                     right = None
                     if step == "JOINCHECK":
                         right = R.St({"op": "table", "name": "pr", "cols": list(st.frame.columns)}, st.frame.copy(), st.kinds)
-                        step = {"op": "natural_join", "on": [list(st.frame.columns)[0]], "jointype": "left", "check": True}
+                        step = {"op": "natural_join", "on": [list(st.frame.columns)[0]], "jointype": "left"}
+                        # the check can be requested under its current name or the deprecated one; keys as on= or by=
+                        step[b.rng.choice(["check", "check_by"])] = True
+                        if b.rng.random() < 0.4:
+                            step["legacy_by"] = True
                     ok_b, fr_b, ex_b = accept_stepwise(g, st, step, right)
                     node = dict(step)
                     node["src"] = case["recipe"]
